@@ -22,7 +22,8 @@ import common as C
 import canon
 
 PROP = 'C01'
-THEOREMS = ['Lessm.Nest.C01_rules', 'Lessm.Nest.C01_no_parent', 'Lessm.Nest.C01_simple_selector', 'Lessm.Nest.flatList_plain_body']
+THEOREMS = ['Lessm.Nest.C01_rules', 'Lessm.Nest.C01_no_parent', 'Lessm.Nest.C01_simple_selector', 'Lessm.Nest.flatList_plain_body'] + [
+    'Lessm.IdentFmt.' + t for t in ('C01_fmt_mark_only', 'C01_fmt_marks', 'C01_fmt_decode', 'C01_fmt_collapse_id', 'C01_fmt_noquote', 'C01_fmt_quoted')]
 
 # compound selector kinds (no `*` joined to another simple selector: open known finding; ids of 3/6 hex digits are kept as written since the fix of C01-hex-id)
 COMPOUNDS = {
